@@ -53,7 +53,8 @@ TRUSTED = ['extraction of the CodeGen / parser models to OCaml (ExtrOcamlBasic +
            'table of np.exp / np.log / ** values)', "CPython's tokenize / ast / float() as the reading of the generated code"]
 ASSUMPTIONS = ['scripts are Latin-1', 'K_eval / the value oracle: decimal literals of at most 15 fractional digits and < 2**53, a '
                'feasible period t (lags <= t < len(span) - leads), every series of the span\'s length',
-               'operations CPython would perform on two literals alone (1/0, 2**X with no series) are outside the value-level tie',
+               'operations CPython would perform on two literals alone (1/0, 2**3) are outside the value-level tie; K_eval skips the passes whose '
+               'result depends on integer literals being Python ints rather than floats (sign of an integer zero: -0 is 0)',
                'the text-level tie covers statements whose matches do not span the first `=` and that have no brace outside a parameter']
 EXHAUSTIVE = {'quick': False, 'thorough': False}
 CASE_TIMEOUT = 30
@@ -234,7 +235,7 @@ def layout(rng, toks, comment_ok=True):
             gaps.append(rng.choice(['', '', '', '', ' ', '  ']) if rng else '')
             break
         a, b = tok_text(tk)[-1], tok_text(toks[i + 1])[0]
-        need = (a in WORD and b in WORD) or (a == '`' and b == '`') or (tk[0] in ('O', '=') and toks[i + 1][0] in ('O', '='))
+        need = (a in WORD and b in WORD) or (a == '`' and b == '`')
         if rng is None:
             tight = tk[0] in ('F', '(') or toks[i + 1][0] == ')' or (toks[i + 1] == ['O', ','])
             gaps.append(' ' if need or not tight else '')
@@ -328,19 +329,19 @@ def expected_names(seq_terms, lhs_names):
     return groups['n'] + groups['x'] + groups['p'] + groups['e']
 
 
-def ref_source(tr):
-    """fully parenthesised Python source of a tree over R(name, k)"""
+def ref_source(tr, floats=False):
+    """fully parenthesised Python source of a tree over R(name, k); floats: integer literals written as floats"""
     if tr[0] == 'num':
-        return '(' + tr[1] + ')'
+        return '(' + tr[1] + ('.0' if floats and '.' not in tr[1] else '') + ')'
     if tr[0] == 'var':
         return 'R(%r, %d)' % (tr[2], tr[3])
     if tr[0] == 'neg':
-        return '(-%s)' % ref_source(tr[1])
+        return '(-%s)' % ref_source(tr[1], floats)
     if tr[0] == 'par':
-        return ref_source(tr[1])
+        return ref_source(tr[1], floats)
     if tr[0] == 'bin':
-        return '(%s %s %s)' % (ref_source(tr[2]), tr[1], ref_source(tr[3]))
-    return '%s(%s)' % ({'exp': 'np.exp', 'log': 'np.log'}.get(tr[1], tr[1]), ', '.join(ref_source(a) for a in tr[2]))
+        return '(%s %s %s)' % (ref_source(tr[2], floats), tr[1], ref_source(tr[3], floats))
+    return '%s(%s)' % ({'exp': 'np.exp', 'log': 'np.log'}.get(tr[1], tr[1]), ', '.join(ref_source(a, floats) for a in tr[2]))
 
 
 def supported(eq):
@@ -492,7 +493,7 @@ def gen_text_stmt(rng, lhs, kinds):
         if u < 0.62:
             return [term()]
         if u < 0.82:
-            return [['N', rng.choice(LITERALS + ['007', '1e3', '0x10'])]]
+            return [['N', rng.choice(LITERALS + ['007', '00'])]]
         if u < 0.92:
             return [['V', rng.choice(VERBS)]]
         return [['K', rng.choice(['None', 'True'])]]
@@ -673,7 +674,8 @@ def impl(case):
 
 
 # ============================================================================ correspondence
-PREAMBLE = em.PREAMBLE + 'Require Import Fsic.CodeGen.CodeGen Fsic.CodeGen.CodeGenF.\nFrom Coq Require Import String.\nOpen Scope string_scope.\n'
+PREAMBLE = (em.PREAMBLE + 'Require Import Fsic.CodeGen.CodeGen Fsic.CodeGen.CodeGenF.\nFrom Coq Require Import String Ascii.\n'
+            'Open Scope string_scope.\nOpen Scope float_scope.\nOpen Scope Z_scope.\n')       # the imported files open nat_scope: Z on top again
 K_EVAL_CAP = {'quick': 600, 'thorough': 5000}
 _DETAIL = {}
 
@@ -685,11 +687,15 @@ def _unlit(j):
     return [j[0]] + [_unlit(x) if isinstance(x, list) else x for x in j[1:]]
 
 
+def _cstr(s):
+    return '(%s)%%string' % lib.cstring(s)
+
+
 def k_item(case, obs):
     exc = {None: 'None', 'RuntimeWarning': '(Some 1)', 'IndexError': '(Some 2)'}[obs['exc']]
     return '(mkC %s %s %s %s %s %s %s %s %s)' % (
-        lib.cstring(case['script']), em.c_table(obs['table']), lib.cbool(case['catch']), lib.cZ(case['t']), em.c_vals(obs['before']),
-        lib.clist(lib.cstring(nm) for nm in obs['names']), em.c_vals(obs['after']), exc, lib.clist(em.c_access(a, case['n']) for a in obs['log']))
+_cstr(case['script']), em.c_table(obs['table']), lib.cbool(case['catch']), lib.cZ(case['t']), em.c_vals(obs['before']),
+        lib.clist(_cstr(nm) for nm in obs['names']), em.c_vals(obs['after']), exc, lib.clist(em.c_access(a, case['n']) for a in obs['log']))
 
 
 def correspond(cases, obs, tag, tier):
@@ -719,7 +725,12 @@ def correspond(cases, obs, tag, tier):
         body = a[2:].rsplit('|', 1)[0]
         for st in (body.split(';') if body else []):
             c, e, g = st.split(',')
-            if g == '1' and c != '-' and e != '-' and (pc.unhx(e[1:]), pc.unhx(c[1:])) not in real:
+            if g != '1' or c == '-' or e == '-':
+                continue
+            et = pc.unhx(e[1:])
+            if et.startswith('`') and et.endswith('`'):
+                continue        # a verbatim statement (starts and ends with a backtick, and so does its equation_text): not an equation
+            if (et, pc.unhx(c[1:])) not in real:
                 note(i, 'K_text', [pc.unhx(e[1:]), pc.unhx(c[1:])], sorted(real))
     # ---- K_pyast
     ans, errs = run_codegen(['G ' + pc.hx(s) for s in scripts])
@@ -738,6 +749,8 @@ def correspond(cases, obs, tag, tier):
             note(i, 'K_pyast', model, [o['names'], real])
     # ---- K_eval
     elig = [i for i in live if cases[i]['kind'] == 'prog' and 'after' in obs[i] and not guard(cases[i], obs[i])]
+    # the Coq model reads every literal as a float: a Python int zero has no sign (-0 is 0, 0 * -1 is 0), a float zero has
+    elig = [i for i in elig if reference_pass(cases[i])[:2] == reference_pass(cases[i], floats=True)[:2]]
     for i in list(elig):
         if obs[i]['exc'] not in (None, 'RuntimeWarning', 'IndexError') or obs[i]['prog'] == 'untranslatable':
             note(i, 'K_eval', 'not expressible', obs[i]['exc'] or obs[i].get('why'))
@@ -829,7 +842,7 @@ def _unsplit_index(toks):
     return out
 
 
-def reference_pass(case):
+def reference_pass(case, floats=False):
     """the reference interpretation -> (store after, exception class or None, expected access sequence [(kind, name, index)])"""
     import numpy as np
     t = case['t']
@@ -844,7 +857,7 @@ def reference_pass(case):
         warnings.simplefilter('error' if case['catch'] else 'ignore')
         for e in symbol_order(case['eqs']):
             try:
-                v = eval(ref_source(e['rhs']), {'np': np, 'R': R, 'max': max, 'min': min, 'abs': abs, '__builtins__': {}})
+                v = eval(ref_source(e['rhs'], floats), {'np': np, 'R': R, 'max': max, 'min': min, 'abs': abs, '__builtins__': {}})
             except Warning as w:
                 exc = type(w).__name__
                 break
@@ -939,7 +952,7 @@ def oracle(case, obs):
     if 'after' not in obs:
         bad('build|' + str(obs.get('build_exc') or obs.get('compile_exc') or obs.get('inst_exc')), 'a program of the arithmetic subset could not be built / instantiated')
         return fails
-    if obs['exc'] == 'AttributeError' and case.get('fmangle') and re.search(r'self\.__\w*[A-Za-z0-9]\[', obs['code']):
+    if obs['exc'] == 'AttributeError' and any(mangled(nm) for nm in obs['names']):
         bad('evaluate|underscore-name-mangled', 'a series whose name starts with an underscore is accessed as self.__NAME inside the class body: Python mangles it to '
             'self._Model__NAME and _evaluate raises AttributeError')
         return fails
